@@ -16,10 +16,8 @@ verus! {
 //@ fragment spec_inout.rs
 //@ fragment assumed_checker_leafs.rs
 
-use crate::nitrogql_ast::variable::VariableDefinition;
 use crate::nitrogql_ast::operation::FragmentDefinition;
 use crate::nitrogql_checker::operation_checker::context::OperationCheckContext;
-use crate::graphql_type_system::definitions::TypeDefinition;
 
 pub open spec fn var_names(v: Seq<VariableDefinition>) -> Seq<Seq<char>> { Seq::new(v.len(), |k: int| v[k].name.name@) }
 /// 5.8.2: the (unwrapped) type of a variable is a defined input type
